@@ -127,7 +127,7 @@ def programs(draw):
         which = draw(st.integers(0, 2))
         kind = draw(st.sampled_from(['flip', 'delete', 'insert', 'dup', 'truncate', 'op+1', 'op-1', 'splice']))
         muts.append((which, kind, draw(st.integers(0, 10 ** 6)), draw(st.integers(0, 255))))
-    return {'g': g, 'c': c, 'p': p, 'tags': tags, 'muts': muts}
+    return {'g': g, 'c': c, 'p': p, 'tags': tags, 'muts': muts, 'leak': draw(st.integers(0, 2 ** 12))}
 
 
 def mutate(bufs, mut):
@@ -170,6 +170,19 @@ def gen_shard(stats: Stats, shard_i, nshards, seed, tier):
             if nxt is None: continue
             cases.append(nxt); meta.append(('mut', ['mut-' + mut[1]]))
             cur = nxt if mut[3] % 2 else base
+    # leftovers across the phase boundaries: terms left on the stack by one file must not be visible to the next file (the
+    # stack is cleared between phases), so a stream that consumes them has to be rejected for underflow
+    for case in batch:
+        base = [case['g'], case['c'], case['p']]
+        for mut in [(0, 'leak', case.get('leak', 0), case.get('leak', 0) >> 8)]:
+            ph = mut[3] % 2
+            n = 1 + mut[2] % 2
+            junk = bytes([(2, 3, 4)[(mut[2] >> 1) % 3], mut[3] % 3]) * n
+            use = [bytes([27]) * n, bytes([28]), bytes([5]) if n == 2 else bytes([27]), bytes([2, 0, 5, 27])][(mut[2] >> 3) % 4]
+            cand = list(base)
+            cand[ph] = (junk + cand[ph]) if (mut[2] >> 5) % 2 else (cand[ph] + junk)
+            cand[ph + 1] = (cand[ph + 1] + use) if (mut[2] >> 6) % 2 else (use + cand[ph + 1])
+            cases.append(tuple(cand)); meta.append(('mut', ['mut-phase-leak']))
     # truncation at every offset of the proof stream for a few programs
     for case in batch[: max(5, len(batch) // 20)]:
         for k in range(len(case['p'])):
@@ -261,11 +274,15 @@ def minimise(v):
                 else:
                     i += 1
     t = tuple(bufs)
-    l0 = rustharness.run_batch([t], mode=1)[0]
+    l0 = rustharness.run_batch([t], mode=0)[0]
+    want = M.dump(M.verify(*t))
+    if l0 == want:
+        l0 = rustharness.run_batch([t], mode=1)[0]
+        want = M.dump(M.run_prefix(*t), with_claims=True)
     v = dict(v)
     v['replay'] = dict(case, gamma=bufs[0].hex(), claim=bufs[1].hex(), proof=bufs[2].hex())
     v['msg'] = v['msg'].split(' on gamma=')[0] + ' on (minimised) gamma=%s claim=%s proof=%s: checker %s, reference %s' % (
-        bufs[0].hex(), bufs[1].hex(), bufs[2].hex(), l0[:300], M.dump(M.run_prefix(*t), with_claims=True)[:300])
+        bufs[0].hex(), bufs[1].hex(), bufs[2].hex(), l0[:300], want[:300])
     return v
 
 
